@@ -74,7 +74,7 @@ def gen_cases(tier: str, seed: int) -> list[dict]:
     for i in range(4 if tier == "quick" else 40):
         cases.append({"kind": "bloom", "i": i, "seed": seed, "examples": 150 if tier == "quick" else 600})
     for i in range(96 if tier == "quick" else 1200):
-        cases.append({"kind": "threads", "i": i, "seed": seed, "trust": i % 4 != 3})
+        cases.append({"kind": "threads", "i": i, "seed": seed, "trust": i % 4 != 3, "mixed": i % 3 == 1})
     for i in range(160 if tier == "quick" else 3000):
         cases.append({"kind": "protocol", "i": i, "seed": seed, "trust": i % 5 != 4})
     return cases
@@ -325,6 +325,15 @@ def _threads(case: dict) -> dict:
 
     def with_sched(sched, world):
         holder["w"] = world
+        if case.get("mixed"):
+            # two QueueProcessor objects in one process sharing the global filter, one trusting its negatives and
+            # one not (both legal as long as the process is the only writer): odd workers run the other one
+            import copy
+            import dataclasses
+
+            p2 = copy.copy(world.processor)
+            p2.config = dataclasses.replace(world.processor.config, dedup_trust_negative_cache=not case["trust"])
+            world.processor_by_thread = {f"W{i}": p2 for i in range(1, 8, 2)}
         return _bloom_points(sched, world)
 
     run, info = interleave.run_workers(spec, nworkers, pol, world_kw={"dedup_items": rng.choice([8, 200, 200, 1000]), "trust_negative": case["trust"]}, ack_fn=ack_fn, records=records, with_sched=with_sched, max_msgs=500, watchdog=120.0)
@@ -348,7 +357,9 @@ def _threads(case: dict) -> dict:
         ms = mark_seq.get(r["polled"])
         if ms is not None and ms <= r["pre_seq"]:
             obs["threaded_marked_redeliveries"] += 1
-            keys.add(f"threads:{r['type']}:{case['trust']}")
+            keys.add(f"threads:{r['type']}:{case['trust']}:{bool(case.get('mixed'))}")
+            if case.get("mixed"):
+                obs["threaded_marked_redeliveries_mixed_config"] += 1
             if r["handled"]:
                 violations.append(viol("C09/handled-although-marked:threads", f"{r['type']} {r['polled']} entered its handler on {r['thread']} although its processed mark (seq {ms}) was durable before the poll (seq {r['pre_seq']}); trust_negative={case['trust']}, filter ops {dict(ops)}", trace_hash=info["trace_hash"]))
     v2, _ = c02.effect_oracles(spec, run, prop="C09")
